@@ -12,7 +12,7 @@ from harness.speccommon import *
 
 LEVEL_TEXT = ('Lean 4 theorems about an executable list model of Spectrum: the invariant (strictly increasing wavelengths, one value per '
               'wavelength) is preserved by crop/trim/pad/append/resample and by every history of them, also when an operation is '
-              'refused; crop keeps exactly the closed range; trim keeps first-to-last sample above tolerance; retained samples are '
+              'refused; crop keeps exactly the closed range and is covariant under a change of wavelength unit (crop_scale_covariant: no absolute tolerance can enter); trim keeps first-to-last sample above tolerance; retained samples are '
               'unaltered; trapezoid integration is linear, additive at a sample and exact on linear data; bins: one per centre, '
               'non-negative (trapezoid), power-preserving normalisation. The model is tied to the code by per-step differential testing.')
 LEVEL_NOTE = ('partial: Simpson-rule clauses (positivity/exactness of Simpson bins on uniform grids, scipy.integrate.simpson) and '
@@ -92,6 +92,14 @@ def generate(rng, tier):
         if t < 4:
             w, v = _spec(rng)
             out.append({'kind': 'history', 'wave': w, 'value': v, 'ops': [_op(rng) for _ in range(int(rng.integers(lmin, lmax + 1)))]})
+            # the same grids at metre-like (x 2^-30 ~ 1e-9) and large (x 2^10) magnitudes: the operations must not depend on the
+            # absolute size of the wavelength numbers (exact: powers of two), and histories of more than 32 operations
+            r = int(rng.integers(0, 40 if tier == 'quick' else 6))
+            if r < 2:
+                hs = [2.0 ** -30, 2.0 ** 10][r]
+                out[-1]['hscale'] = hs; out[-1]['wave'] = [x * hs for x in w]
+            elif r == 2 and tier != 'quick':
+                out[-1]['ops'] = [_op(rng) for _ in range(int(rng.integers(33, 49)))]
         elif t < 6:
             w, v = _spec(rng)
             v2 = [dyadic(rng, 0, 16, 3) for _ in w]
@@ -120,6 +128,10 @@ def generate(rng, tier):
             c['omit_unit'] = (r == 5)
             # integer-dtype centre array (only meaningful where the data scale is 1)
             c['cen_int'] = bool(c['unit'] == 'nm' and c['req'] == 'nm' and rng.integers(0, 3) == 0)
+            if c['cen_int']:
+                # integer dtypes as instruments deliver them; with wavelengths of 10^4 (x 512) an int16 sum of two centres overflows
+                c['cen_dtype'] = ['int64', 'int32', 'int16'][int(rng.integers(0, 3))]
+                if c['cen_dtype'] != 'int64' and rng.integers(0, 2): c['wscale'] = True
     # unit-conversion paths of sample/resample: spectrum in unit U, abscissae in unit R (explicit, or the default 'nm')
     for i in range(max(n // 10, 12)):
         w, v = _spec(rng, n=int(rng.integers(2, 9)))
@@ -140,10 +152,10 @@ def _vals(c):
     return v.astype(np.int64) if c.get('dtype') == 'int' else v
 
 def signature(c):
-    if c['kind'] == 'history': return 'history n=%d %s %s' % (len(c['wave']), ','.join(o['k'] for o in c['ops']), c['wave'][:2])
+    if c['kind'] == 'history': return 'history%s n=%d %s %s' % ('' if 'hscale' not in c else '*%g' % c['hscale'], len(c['wave']), ','.join(o['k'] for o in c['ops']), c['wave'][:2])
     if c['kind'] == 'unit': return 'unit %s>%s%s n=%d %s %s' % (c['unit'], c['req'], '*' if c['omit_unit'] else '', len(c['wave']), c['fr'], c['wave'][:2])
     if c['kind'] == 'integrate': return 'integrate n=%d %s %s %s' % (len(c['wave']), c['a'], c['b'], c['wave'][:2])
-    return 'bin n=%d m=%d %s %s %s %s>%s%s %s' % (len(c['wave']), c['m'], c['simps'], c['ends'], c['pp'], c['unit'], c.get('req', c['unit']), 'i' if c.get('cen_int') else '', c['wave'][:2])
+    return 'bin n=%d m=%d %s %s %s %s>%s%s %s' % (len(c['wave']), c['m'], c['simps'], c['ends'], c['pp'], c['unit'], c.get('req', c['unit']), (c.get('cen_dtype', 'i') + str(c.get('wscale', ''))) if c.get('cen_int') else '', c['wave'][:2])
 
 def nontrivial(c):
     if c['kind'] == 'history': return len({o['k'] for o in c['ops']}) >= 2
@@ -151,11 +163,11 @@ def nontrivial(c):
 
 def tags(c):
     t = [c['kind'], 'dtype:' + c.get('dtype', 'float')]
-    if c['kind'] == 'history': t += sorted({'op:' + o['k'] for o in c['ops']})
+    if c['kind'] == 'history': t += sorted({'op:' + o['k'] for o in c['ops']}) + ['scale:%g' % c.get('hscale', 1.0)] + (['long-history'] if len(c['ops']) > 32 else [])
     if c['kind'] == 'bin':
         t += ['bin:' + ('simps' if c['simps'] else 'trapz'), 'bin:' + c['ends'], 'bin:unit=' + c['unit'], 'bin:pp=%s' % c['pp'],
               'bin:requested=' + ('default' if c.get('omit_unit') else 'own' if c.get('req', c['unit']) == c['unit'] else 'other')]
-        if c.get('cen_int'): t.append('bin:integer-centres')
+        if c.get('cen_int'): t.append('bin:integer-centres:' + c.get('cen_dtype', 'int64') + ('*top-of-range' if c.get('wscale') else ''))
     t += NOTES.pop(id(c), [])
     return t
 
@@ -165,11 +177,11 @@ def _R():
     import lentil.radiometry as R
     return R
 
-def _resolve(o, s, R):
+def _resolve(o, s, R, hs=1.0):
     """absolute parameters of a relative op description on the current state (all arithmetic in float64, recorded)"""
     w = np.asarray(s.wave, dtype=float)
     lo, hi = (float(w.min()), float(w.max())) if w.size else (1.0, 2.0)
-    span = (hi - lo) if hi > lo else 1.0
+    span = (hi - lo) if hi > lo else 1.0 * hs
     k = o['k']
     if k == 'crop':
         a, b = lo + o['a'] * span, lo + o['b'] * span
@@ -178,13 +190,13 @@ def _resolve(o, s, R):
     if k == 'trim': return {'k': 'trim', 'tol': o['tol']}
     if k == 'pad':
         vals = {'constant': o['vals'][0], 'constant2': list(o['vals']), 'default': None, 'edge': None}[o['mode']]
-        return {'k': 'pad', 'e0': lo - o['a'] * span, 'e1': hi + o['b'] * span, 'sampling': o['sampling'], 'mode': 'edge' if o['mode'] == 'edge' else 'constant', 'values': vals}
+        return {'k': 'pad', 'e0': lo - o['a'] * span, 'e1': hi + o['b'] * span, 'sampling': None if o['sampling'] is None else o['sampling'] * hs, 'mode': 'edge' if o['mode'] == 'edge' else 'constant', 'values': vals}
     if k == 'append':
         m = {'same': w.size, 'one': 1, 'other': max(1, (w.size + 1) // 2 + 1) if w.size != 3 else 2}[o['len']]
         m = max(1, min(m, 12))
         x = hi + o['gap'] * (span / max(w.size, 1) if o['gap'] > 0 else span)
         ow = []
-        for i in range(m): ow.append(x); x = x + o['steps'][i]
+        for i in range(m): ow.append(x); x = x + o['steps'][i] * hs
         if o['shuffle'] and m > 1: ow[0], ow[-1] = ow[-1], ow[0]
         return {'k': 'append', 'wave': ow, 'value': o['vals'][:m], 'copy': o['copy']}
     n = o['n']
@@ -214,6 +226,15 @@ def _state(s):
             'shapes': [list(np.shape(s.wave)), list(np.shape(s.value))]}
 
 def impl(c):
+    from harness.c13 import guard
+    g = guard(seconds=30, extra=3 << 30)
+    out = None
+    with g:
+        out = _impl(c)
+    if g.msg: return {'guard': g.msg}
+    return out
+
+def _impl(c):
     R = _R()
     with warnings.catch_warnings():
         warnings.simplefilter('ignore')
@@ -222,8 +243,13 @@ def impl(c):
             s = R.Spectrum(np.array(c['wave']), _vals(c), waveunit='nm')
             steps = []
             for o in c['ops']:
-                p = _resolve(o, s, R)
+                if np.size(s.wave) > 1500: break          # repeated pads grow the grid geometrically: stop the history there
+                p = _resolve(o, s, R, c.get('hscale', 1.0))
                 before = _state(s)
+                if p['k'] == 'pad' and np.size(s.wave) >= 1 and (p['sampling'] is not None or np.size(s.wave) >= 2):
+                    dw_ = p['sampling'] if p['sampling'] is not None else float(np.diff(s.wave).min())
+                    if dw_ > 0 and (abs(float(s.wave.min()) - p['e0']) + abs(p['e1'] - float(s.wave.max()))) / dw_ > 3000:
+                        steps.append({'p': p, 'before': before, 'after': before, 'exc': None, 'skipped': True}); continue      # absurdly long pad: not run
                 if p['k'] == 'append':
                     # the other spectrum must itself be constructible; otherwise the step is a no-op
                     try:
@@ -275,9 +301,13 @@ def impl(c):
                     'lin': float(R.Spectrum(w, lin).integrate(method='trapz')), 'lin_simps': float(R.Spectrum(w, lin).integrate(method='simps'))}
         if k == 'bin':
             w, v = np.array(c['wave']), _vals(c)
-            scale = 1.0 if (c['unit'] == 'nm' or 'centres_abs' in c) else 2.0 ** -10      # a dyadic factor keeps the data exact in the other unit
-            s = R.Spectrum(w * scale, v, waveunit=c['unit'])
             lo, hi = float(w.min()), float(w.max()); span = hi - lo
+            scale = 1.0 if (c['unit'] == 'nm' or 'centres_abs' in c) else 2.0 ** -10      # a dyadic factor keeps the data exact in the other unit
+            if c.get('wscale') and scale == 1.0:
+                # integer centres near the top of the small dtype's range (power-of-two scale: exact): sums of two centres overflow it
+                top = {'int16': 32767.0, 'int32': 2147483647.0}.get(c.get('cen_dtype'), 32767.0)
+                scale = 2.0 ** int(np.floor(np.log2(top / max(lo + max(c['fb'], 1.0) * span, 1.0))))
+            s = R.Spectrum(w * scale, v, waveunit=c['unit'])
             a, b = lo + c['fa'] * span, lo + c['fb'] * span
             m = c['m']
             if c['uniform'] or m < 3: cen = [a + (b - a) * i / max(m - 1, 1) for i in range(m)]
@@ -286,7 +316,7 @@ def impl(c):
             # dyadic centres (multiples of 2^-6 in the data's own scale): edges and midpoints are then exact in float64, so the
             # implementation and the exact model take the same in-range/out-of-range decisions at the ends of the data
             cen = sorted({round(x * 64) / 64 for x in cen})
-            if c.get('cen_int'): cen = sorted({float(round(x)) for x in cen})
+            if c.get('cen_int') and not c.get('wscale'): cen = sorted({float(round(x)) for x in cen})
             req = c.get('req', c['unit'])
             f = float(MPU[c['unit']] / MPU[req])                      # spectrum unit -> requested unit
             cen = [(x * scale) * f if req != c['unit'] else x * scale for x in cen]
@@ -304,7 +334,8 @@ def impl(c):
                     cen = [x + (hi_ - lo_) * 2.0 ** -12 for x in cen]
             out = {'centres': cen, 'wave': [float(x) for x in wave_req]}
             before = _state(s)
-            carr = np.array(cen).astype(np.int64) if c.get('cen_int') else np.array(cen)
+            carr = np.array(cen).astype(getattr(np, c.get('cen_dtype', 'int64'))) if c.get('cen_int') else np.array(cen)
+            if c.get('cen_int') and [float(x) for x in carr] != cen: carr = np.array(cen).astype(np.int64)      # not representable in the small dtype
             kw = {} if c.get('omit_unit') else {'waveunit': req}
             try:
                 bins = s.bin(carr, interp_method=method, ends=c['ends'], preserve_power=c['pp'], fill_value=_pyfill(c['fill']), **kw)
@@ -346,7 +377,7 @@ def _op_req(p):
 
 def requests(c, io):
     k = c['kind']
-    if '_harness_exc' in io: return []
+    if '_harness_exc' in io or 'guard' in io: return []
     if k == 'history':
         out = []
         for st in io['steps']:
@@ -381,6 +412,7 @@ def _fl(ps): return [float(unq(p)) for p in ps]
 
 def compare(c, io, mo):
     k = c['kind']
+    if 'guard' in io: return None
     if k == 'history':
         live = [st for st in io['steps'] if not st.get('skipped')]
         for i, (st, m) in enumerate(zip(live, mo)):
@@ -444,6 +476,7 @@ def _is_block(small, big):
 
 def oracle(c, io):
     k = c['kind']
+    if 'guard' in io: return f"{k} on a spectrum of {len(c['wave'])} samples did not finish within its time/memory budget ({io['guard']})"
     if k == 'history':
         for i, st in enumerate(io['steps']):
             p, b, a = st['p'], st['before'], st['after']
@@ -551,6 +584,16 @@ def oracle(c, io):
             if e[0] >= wlo and e[-1] <= whi:
                 ref = [(a_ / sc) * (y * y - x * x) / 2 + b_ * (y - x) for x, y in zip(e, e[1:])]
                 if not all_close(bins, ref, 1e-10, 1e-12 * (1 + abs(ref[0]))): return f'{tag}: spectrum linear across every bin, bins {bins} but exact integrals {ref}'
+        if not c['simps'] and not c['pp']:
+            # the definition, recomputed: chained trapezoid over the bin edges of the linear interpolant (fill outside the data)
+            mids = [(x + y) / 2 for x, y in zip(cen, cen[1:])]
+            e = ([cen[0] - (cen[1] - cen[0]) / 2] if c['ends'] == 'symmetric' else [cen[0]]) + mids + ([cen[-1] + (cen[-1] - cen[-2]) / 2] if c['ends'] == 'symmetric' else [cen[-1]])
+            fe = np.interp(np.array(e), np.array(io['wave']), np.array(c['value'], dtype=float), left=fl, right=fr)
+            ref = [0.5 * (fe[j] + fe[j + 1]) * (e[j + 1] - e[j]) for j in range(len(e) - 1)]
+            wlo, whi = io['wave'][0], io['wave'][-1]
+            edge_tie = any(0 < abs(x - b_) < 1e-9 * (whi - wlo) for x in e for b_ in (wlo, whi))
+            if not edge_tie and not all_close(bins, ref, 1e-9, 1e-12 * (1 + max(abs(x) for x in ref))):
+                return f'{tag}: bins {bins}; trapezoid rule over the bin edges {e} gives {ref}'
         if c['pp'] and 'norm' in io and np.isfinite(io['norm']):
             if not close(sum(bins), io['norm'], 1e-10, 1e-12 * (1 + abs(io['norm']))):
                 return f"{tag}: bins sum to {sum(bins)!r}, the integral over the centres' span (in {req}) is {io['norm']!r}"
